@@ -418,7 +418,7 @@ func (g *Gen) blockInlines(c ictx) []*Inline {
 	return trimEdges(g.inlines(g.Sz.InlDepth, c))
 }
 
-var codeWords = []string{"```  ", "~~~ ", " ```", "  ~~~~  ", "``` \t", "x", "foo", "- a", "> q", "<b>", "&amp;", "*x*", "    deep", "```", "~~~", "````", "# h", "1. n", "\\", "`", "[a](b)", "  two", "\ttab", "---", "===", "a  ", "<div>", "```go", "~~~~ x"}
+var codeWords = []string{"```  ", "~~~ ", " ```", "  ~~~~  ", "``` \t", "   ```", "    ```", "     ~~~", "  ````", "   ~~~  ", "`````", "~~~~", "    ~~~~", "x", "foo", "- a", "> q", "<b>", "&amp;", "*x*", "    deep", "```", "~~~", "````", "# h", "1. n", "\\", "`", "[a](b)", "  two", "\ttab", "---", "===", "a  ", "<div>", "```go", "~~~~ x"}
 
 func (g *Gen) codeLines(allowBlankEdges bool) []string {
 	n := 1 + g.pick("ncode", 4)
